@@ -35,6 +35,10 @@ type amp struct {
 	*vkit.GateCache
 	K      int
 	Hashed bool
+	// LostAnswer: an injected fault on a write is "applied, but the answer was lost" (the
+	// classic timeout of a networked store): the operation is performed and an error returned.
+	// Otherwise the faulted operation is not performed.
+	LostAnswer bool
 
 	mu      sync.Mutex
 	memo    map[string]int // "<kind>:<id>" -> class
@@ -173,6 +177,9 @@ func (a *amp) Set(key string, value any, ttl time.Duration) error {
 		return a.GateCache.Storage.Set(k, value, ttl)
 	}
 	err := a.GateCache.Set(k, value, ttl)
+	if a.LostAnswer && errors.Is(err, vkit.ErrGateFault) {
+		a.GateCache.Storage.Set(k, value, ttl)
+	}
 	a.note(err)
 	return err
 }
@@ -193,6 +200,9 @@ func (a *amp) Delete(key string) error {
 		return a.GateCache.Storage.Delete(k)
 	}
 	err := a.GateCache.Delete(k)
+	if a.LostAnswer && errors.Is(err, vkit.ErrGateFault) {
+		a.GateCache.Storage.Delete(k)
+	}
 	a.note(err)
 	return err
 }
@@ -213,6 +223,9 @@ func (a *amp) SetNX(key string, value any, ttl time.Duration) (bool, error) {
 		return a.GateCache.Storage.SetNX(k, value, ttl)
 	}
 	ok, err := a.GateCache.SetNX(k, value, ttl)
+	if a.LostAnswer && errors.Is(err, vkit.ErrGateFault) {
+		a.GateCache.Storage.SetNX(k, value, ttl)
+	}
 	a.note(err)
 	return ok, err
 }
